@@ -42,3 +42,13 @@ Definition obs_of_N (o : obsN) : obs :=
   match o with (a, b, c, l) => (N.to_nat a, N.to_nat b, N.to_nat c, map N.to_nat l) end.
 Definition case_code_N (c : list N * obsN) : nat :=
   case_code (map N.to_nat (fst c), obs_of_N (snd c)).
+
+(* text cases: raw = token types of the text as written (real lexer), ends_nl = the text ends
+   with a newline character, types = what ply fetched inside Parser.parse_string.
+   bit 3: the model of parse_string's normalisation (LRConcrete.text_tokens) differs from the
+   tokens really parsed *)
+Definition text_case_code_N (c : list N * bool * list N * obsN) : nat :=
+  let '(raw, ends_nl, types, o) := c in
+  let ts := text_tokens (map N.to_nat raw) ends_nl in
+  case_code (ts, obs_of_N o)
+  + (if list_nat_eqb ts (map N.to_nat types) then 0 else 8).
